@@ -37,6 +37,14 @@ def base_history(seed, ncommits, pagesize):
     t = 1
     for c in range(1, ncommits + 1):
         lines.append("begin %d w" % t)
+        if c == 3:
+            # a write transaction that changes nothing is a commit too: it must leave its own header, so that
+            # the fallback from it is the commit before it and not the one before that
+            lines += ["commit %d" % t, "snap c%d" % c]
+            t += 1
+            lines += ["file", "begin %d r" % t, "dump %d" % t, "drop %d" % t]
+            t += 1
+            continue
         lines.append("gocb %d 1 0 %s" % (t, jgen.hx(b"main")))
         lines.append("gocb %d 2 1 %s" % (t, jgen.hx(b"nested-%d" % (c % 2))))
         for _ in range(r.randrange(4, 14)):
@@ -61,14 +69,16 @@ def base_history(seed, ncommits, pagesize):
     return lines
 
 
-def run_probe(scratch, items, tag):
+def run_probe(scratch, items, tag, deaths=0):
     """items: list of (id, path, pagesize).  returns ({id: impl outcome}, {id: (model outcome, extra)})"""
     lst = scratch.path("%s.list" % tag)
     with open(lst, "w") as f:
         for i, p, ps in items:
             f.write("%s %s %d\n" % (i, p, ps))
     out_i = scratch.path("%s.impl" % tag)
-    rc, o, e, _ = vlib.sh([vlib.JHARNESS, "images", lst, out_i], timeout=900)
+    # (a clean probe takes a few milliseconds per image; a probe that hangs — the code under test looping over
+    # a damaged page count, say — must not cost more than this)
+    rc, o, e, _ = vlib.sh([vlib.JHARNESS, "images", lst, out_i], timeout=20 + len(items) // 4)
     impl = {}
     if os.path.exists(out_i):
         for l in open(out_i, errors="replace"):
@@ -79,9 +89,13 @@ def run_probe(scratch, items, tag):
         rest = [it for it in items if it[0] not in impl]
         if rest:
             impl[rest[0][0]] = "died:rc=%d" % rc
-            if len(rest) > 1:
-                i2, _ = run_probe(scratch, rest[1:], tag + "r")
+            if len(rest) > 1 and deaths < 3:
+                i2, _ = run_probe(scratch, rest[1:], tag + "r", deaths + 1)
                 impl.update(i2)
+            elif len(rest) > 1:
+                # the probe died or hung four times in this chunk: the first ones are reported, the rest not run
+                for it in rest[1:]:
+                    impl[it[0]] = "notrun:probe died repeatedly"
     rc2, o2, e2, _ = vlib.sh([vlib.JMODEL, "images", lst], timeout=900)
     model = {}
     for l in o2.split("\n"):
